@@ -683,7 +683,7 @@ Program == Wrap(Subst(TheToks, lit, TRUE, ""), depth, NeedAsync, NeedGen, NeedFu
 \* ---- emission
 CaseFile == IOEnv.VERIF_CASES
 RECURSIVE JoinNames(_)
-JoinNames(s) == IF s = <<>> THEN "" ELSE IF Len(s) = 1 THEN s[1] ELSE s[1] \o ">" \o JoinNames(Tail(s))
+JoinNames(s) == IF s = <<>> THEN "" ELSE IF Len(s) = 1 THEN s[1] ELSE s[1] \o " " \o JoinNames(Tail(s))
 Case == LET p == Program IN
         [fam |-> fam, ctx |-> ctx, outer |-> ctx \o ":" \o JoinNames(frs), frames |-> frs, inner |-> inn, force |-> force,
          lit |-> lit, depth |-> depth, atoms |-> p, sep |-> Seps(p)]
